@@ -3,7 +3,9 @@ Correspondence: real mystic.penalty object TREES (all nine types, chains of 1-4 
 as_penalty and the combinators coupler.and_/or_/not_/additive nested to depth 3 with LIVE member penalties) driven by
 random op sequences on any object of the tree vs lean Model/Penalty + Model/PenaltyTree (bit-exact; `log` of
 barrier_inequality and inexact python `sum` toleranced and counted separately).
-Monitor: the property itself (exact rational arithmetic on the documented formulas) on the implementation's results."""
+Monitor: the property itself (exact rational arithmetic on the documented formulas) on the implementation's results.
+Sessions include the caller's side (lean `Sess`): lists obtained from stored() are kept, edited in place and read back
+across store / iter / clear; the penalty must depend on the calls made on it only, and touch nothing the caller holds."""
 import sys, time, math, json, warnings, random as _random
 from fractions import Fraction
 import common
@@ -78,6 +80,12 @@ THEOREMS = [
     "MysticVerif.C15.infinite_k_uniform",
     "MysticVerif.C15.infinite_k_quadratic_linear",
     "MysticVerif.C15.infinite_k_nan_on_feasible_witness",
+    # the lists handed out by stored(): the penalty and its caller share nothing
+    "MysticVerif.C15.reading_edits_never_reach_penalty",
+    "MysticVerif.C15.reading_edit_frame",
+    "MysticVerif.C15.reading_is_copy",
+    "MysticVerif.C15.tree_ops_leave_readings",
+    "MysticVerif.C15.non_lagrange_never_has_history",
 ]
 
 TYPES = [("quadratic_equality", "qEq"), ("linear_equality", "lEq"), ("uniform_equality", "uEq"),
@@ -347,6 +355,74 @@ def gen_iter_index(rng, exact, intmode):
     return rng.choice([400, -400, 1100])     # pow overflows (OverflowError: skipped) / underflows to 0
 
 
+READER_OPS = ("hold", "hmut", "held")
+
+
+def gen_hmut(rng, exact):
+    """an in-place edit the caller makes to a list IT holds (obtained from stored())"""
+    val = lambda: dyadic(rng, -3, 3, 4) if (exact or rng.random() < 0.6) else gfloat(rng, 50.0)
+    r = rng.choice(["sort", "reverse", "scale", "append", "append", "pop", "set", "set", "clear", "extend", "insert", "del0", "negate"])
+    if r == "scale":
+        return ("scale", rng.choice([2.0, -1.0, 0.5, 1000.0, 0.0]))
+    if r == "append":
+        return ("append", val())
+    if r == "set":
+        return ("set", rng.choice([0, 0, 1, 2, -1, -2]), val())
+    if r == "extend":
+        return ("extend", [val() for _ in range(rng.randint(1, 3))])
+    if r == "insert":
+        return ("insert", rng.choice([0, 1, -1]), val())
+    return (r,)
+
+
+def apply_mut(lst, mut):
+    """the caller's edit, in place (a total function: an edit that does not apply to this list is a no-op)"""
+    k = mut[0]
+    if k == "sort":
+        lst.sort()
+    elif k == "reverse":
+        lst.reverse()
+    elif k == "scale":
+        for i in range(len(lst)):
+            lst[i] = lst[i] * mut[1]
+    elif k == "negate":
+        lst[:] = [-v for v in lst]
+    elif k == "append":
+        lst.append(mut[1])
+    elif k == "extend":
+        lst.extend(list(mut[1]))
+    elif k == "insert":
+        lst.insert(mut[1], mut[2])
+    elif k == "pop":
+        if lst:
+            lst.pop()
+    elif k == "del0":
+        if lst:
+            del lst[0]
+    elif k == "clear":
+        del lst[:]
+    elif k == "set":
+        if -len(lst) <= mut[1] < len(lst):
+            lst[mut[1]] = mut[2]
+    else:
+        raise AssertionError(mut)
+
+
+def gen_reader_ops(rng, spec, paths, lagpaths, nheld, pts, density=1.0):
+    """what a caller does with stored(): keep the list (hold), edit it in place (hmut, with a probe evaluation before
+    and after), look at it again later (held).  returns (ops, nheld)"""
+    out = []
+    if rng.random() < 0.30 * density:
+        sel = rng.choice(lagpaths) if (lagpaths and rng.random() < 0.65) else rng.choice(paths)
+        out.append(("hold", list(sel[0]), rng.choice(["all", "all", "slice"])))
+        nheld += 1
+    if nheld and rng.random() < 0.40 * density:
+        out.append(("hmut", [], rng.randrange(nheld), gen_hmut(rng, spec["exact"]), rng.choice(pts)))
+    if nheld and rng.random() < 0.15 * density:
+        out.append(("held", [], rng.randrange(nheld)))
+    return out, nheld
+
+
 def gen_ops(rng, spec):
     dim = spec["dim"]; exact = spec["exact"]
     tg = leaf_targets(spec)
@@ -359,7 +435,12 @@ def gen_ops(rng, spec):
     has_lag = bool(lagpaths)
     special = not any(l[0] == "rnorm" for l in spec["leaves"])   # round(inf) inside a constraint raises OverflowError: outside the model
     pts = [gen_point(rng, dim, tg, exact, special) for _ in range(3)]
+    reader = rng.random() < 0.45       # the caller keeps / edits what stored() returned
+    nheld = 0
     for _ in range(nops):
+        if reader:
+            more, nheld = gen_reader_ops(rng, spec, paths, lagpaths, nheld, pts)
+            ops += more
         r0 = rng.random()
         if r0 < 0.55:
             sel = paths[0]
@@ -398,6 +479,12 @@ def gen_ops(rng, spec):
             ops.append(("iteration", p))
         else:
             ops.append(("additive", p, x, dsl.gen_expr(rng, dim, 1)))
+    if reader and nheld:
+        if rng.random() < 0.5:
+            ops.append(("clear", list(rng.choice(paths)[0])))
+        for q in range(nheld):
+            if rng.random() < 0.6:
+                ops.append(("held", [], q))
     ops.append(("call", [], rng.choice(pts)))
     return ops
 
@@ -410,6 +497,11 @@ def gen_cycle_ops(rng, spec):
     ops = []
     ncyc = rng.randint(2, 7)
     probe = gen_point(rng, dim, tg, exact, False)
+    reader = rng.random() < 0.5        # the outer loop logs the multiplier history / post-processes the list it read
+    nheld = 0
+    paths = all_paths(spec["tree"])
+    rootpaths = [p for p in paths if not any(is_m(st) for st in p[0])]
+    lagpaths = [p for p in rootpaths if p[1]["levels"][p[2]]["t"] in LAG]
     for c in range(ncyc):
         x = gen_point(rng, dim, tg, exact, False)
         ops.append(("call", [], x))
@@ -417,6 +509,9 @@ def gen_cycle_ops(rng, spec):
         if rng.random() < 0.25:
             ops.append(("storeI", [], gen_point(rng, dim, tg, exact, False), rng.randint(0, c)))
         ops.append(("iter", []))
+        if reader:
+            more, nheld = gen_reader_ops(rng, spec, rootpaths, lagpaths, nheld, [probe, x], density=1.3)
+            ops += more
         ops.append(("call", [], probe))
         if rng.random() < 0.3:
             ops.append(("storedI", [], rng.randint(-2, c + 2)))
@@ -425,6 +520,8 @@ def gen_cycle_ops(rng, spec):
     ops.append(("error", [], probe))
     if rng.random() < 0.5:
         ops.append(("clear", []))
+        for q in range(nheld):
+            ops.append(("held", [], q))
         ops.append(("call", [], probe))
     return ops
 
@@ -647,6 +744,20 @@ def tol_class(spec, b, d, x):
     return lg, sm, hz
 
 
+def sum_scale(spec, b, d, x):
+    """magnitude of the terms python's sum() adds up inside the and_ conditions below level d of b: an inexact sum is
+    compared with a tolerance relative to its TERMS (members of opposite sign - a negative k - cancel: the compensated
+    builtin sum and the naive fold then differ by ~1e-16 of the terms, which is everything that is left of the result)"""
+    m = 0.0
+    for lv, c, mbs in walk_conds(b, d):
+        if c[0] == "and":
+            vals = live_values(mbs, x)
+            for v in (vals or []):
+                if math.isfinite(v):
+                    m = max(m, abs(v))
+    return m
+
+
 def members_log(b, d):
     """error(x) never calls log itself; it depends on it only through and_/or_ member penalties"""
     for lv, c, mbs in walk_conds(b, d):
@@ -661,13 +772,21 @@ def run_impl(spec):
     from mystic import coupler
     root = build_node(spec, spec["tree"])
     obs = []
+    held = []      # the very objects stored() returned (the caller's lists)
+    exp = []       # this harness's own copies of them, edited in step with the caller: what the caller must see
+    src = []       # per list: (approx, type token) of the level it was read from
+    ab0 = all_built(root)
+    tree_types = [bb.node["levels"][dd]["t"] for bb, dd in ab0]
+    tree_approx = [bb.node["levels"][dd]["cond"][0] != "leaf" or spec["leaves"][bb.node["levels"][dd]["cond"][1]][0] == "rnorm" for bb, dd in ab0]
     for op in spec["ops"]:
         kind, path = op[0], op[1]
         b, d = resolve(root, path)
         hd = b.handles[d]
+        if kind in ("call", "error", "store", "storeI", "additive"):
+            xarg = list(op[2])     # the argument object of the main call: must come back as it went in
         if kind == "call":
             x = list(op[2])
-            r = guarded(lambda: float(hd(list(x))))
+            r = guarded(lambda: float(hd(xarg)))
             deeper = []
             if r[0] == "v":   # the decorated functions' own values (monitor: stacked_add, zero/positive)
                 for dd in range(d + 1, len(b.handles)):
@@ -678,13 +797,13 @@ def run_impl(spec):
                         "tol": tol_class(spec, b, d, x)})
         elif kind == "additive":
             g = op[3]
-            r = guarded(lambda: float(coupler.additive(hd)(lambda x: dsl.ev(g, x))(list(op[2]))))
+            r = guarded(lambda: float(coupler.additive(hd)(lambda x: dsl.ev(g, x))(xarg)))
             pr = guarded(lambda: float(hd(list(op[2]))))
             obs.append({"op": kind, "r": r, "p": pr, "g": dsl.ev(g, op[2]), "tol": tol_class(spec, b, d, list(op[2])), "deeper": []})
         elif kind == "error":
             x = list(op[2])
             lg, sm, jump = tol_class(spec, b, d, x)
-            obs.append({"op": kind, "r": guarded(lambda: float(hd.error(list(x)))),
+            obs.append({"op": kind, "r": guarded(lambda: float(hd.error(xarg))),
                         "cvs": [cond_value(spec, b, dd, x) for dd in range(d, len(b.handles))],
                         "tol": (members_log(b, d), sm, jump)})
         elif kind in ("iter", "iterI", "clear", "store", "storeI"):
@@ -697,9 +816,9 @@ def run_impl(spec):
             elif kind == "clear":
                 r = guarded(lambda: hd.clear())
             elif kind == "store":
-                r = guarded(lambda: hd.store(list(op[2])))
+                r = guarded(lambda: hd.store(xarg))
             else:
-                r = guarded(lambda: hd.store(list(op[2]), op[3]))
+                r = guarded(lambda: hd.store(xarg, op[3]))
             ab = all_built(root)
             affected = [i for i, (bb, dd) in enumerate(ab) if bb is b and dd >= d]
             obs.append({"op": kind, "r": r, "before": before, "state": state_of(root), "affected": affected, "cvs": cvs,
@@ -711,8 +830,41 @@ def run_impl(spec):
             obs.append({"op": kind, "r": guarded(lambda: float(hd.stored(op[2]))), "approx": b.node["levels"][d]["cond"][0] != "leaf"})
         elif kind == "iteration":
             obs.append({"op": kind, "r": guarded(lambda: hd.iteration())})
+        elif kind == "hold":
+            got = guarded(lambda: hd.stored() if op[2] == "all" else hd.stored(slice(None)))
+            ok_list = got[0] == "v" and isinstance(got[1], list)
+            lst = got[1] if ok_list else []
+            held.append(lst); exp.append(list(lst))     # the same (immutable) numbers in a list of the harness's own
+            lv = b.node["levels"][d]
+            src.append((lv["cond"][0] != "leaf" or spec["leaves"][lv["cond"][1]][0] == "rnorm", lv["t"]))
+            obs.append({"op": kind, "r": ("v", [float(v) for v in lst]) if ok_list else (got if got[0] == "raise" else ("raise", "other:stored() returned a %s" % type(got[1]).__name__)),
+                        "approx": src[-1][0], "aliased": any(lst is h for h in held[:-1])})
+        elif kind == "hmut":
+            slot, mut, x = op[2], op[3], list(op[4])
+            if slot >= len(held):       # (only in a truncated op list) nothing to edit
+                obs.append({"op": kind, "r": ("v", None), "skip": True, "state": state_of(root), "approx": tree_approx, "types": tree_types})
+            else:
+                before = state_of(root)
+                pv0 = guarded(lambda: float(root.handles[0](list(x))))
+                apply_mut(exp[slot], mut)       # the harness's copy
+                apply_mut(held[slot], mut)      # the caller's list
+                pv1 = guarded(lambda: float(root.handles[0](list(x))))
+                obs.append({"op": kind, "r": ("v", None), "before": before, "state": state_of(root), "pv": (pv0, pv1), "new": [float(v) for v in exp[slot]],
+                            "approx": tree_approx, "types": tree_types, "src": src[slot]})
+        elif kind == "held":
+            slot = op[2]
+            obs.append({"op": kind, "r": ("v", [float(v) for v in held[slot]] if slot < len(held) else []),
+                        "approx": src[slot][0] if slot < len(src) else False})
         else:
             raise AssertionError(op)
+        ob = obs[-1]
+        if kind in ("call", "error", "additive") and ob["tol"][1]:
+            ob["sumscale"] = sum_scale(spec, b, d, list(op[2]))
+        if kind in ("call", "error", "store", "storeI", "additive") and not same_vec([float(v) for v in xarg], [float(v) for v in op[2]]):
+            ob["xmut"] = [float(v) for v in xarg]
+        if held:
+            ob["held"] = [[float(v) for v in h] for h in held]
+            ob["exp"] = [[float(v) for v in e] for e in exp]
     return root, obs
 
 
@@ -749,7 +901,7 @@ def path_sexp(p):
     return "(" + " ".join("d" if not is_m(s) else "(m %d)" % s[1] for s in p) + ")"
 
 
-def op_sexp(op):
+def op_sexp(op, ob=None):
     k = op[0]; p = path_sexp(op[1])
     if k in ("call", "error", "store"):
         return "(%s %s %s)" % (k, p, fl(op[2]))
@@ -761,13 +913,21 @@ def op_sexp(op):
         return "(%s %s)" % (k, p)
     if k in ("iterI", "storedI"):
         return "(%s %s %d)" % (k, p, op[2])
+    if k == "hold":
+        return "(hold %s)" % p
+    if k == "held":
+        return "(held %d)" % op[2]
+    if k == "hmut":      # the model is told the contents of the caller's list after the edit (from the harness's own copy)
+        if ob.get("skip"):
+            return "(hmut %d ())" % op[2]
+        return "(hmut %d %s)" % (op[2], fl(ob["new"]))
     raise AssertionError(op)
 
 
-def request_line(spec):
+def request_line(spec, obs):
     return "C15 tree (leaves (%s)) (fns (%s)) (t %s) (ops (%s))" % (
         " ".join(leaf_sexp(l) for l in spec["leaves"]), " ".join(dsl.expr_sexp(tuple(e)) for e in spec["fns"]),
-        pt_sexp(spec["tree"]), " ".join(op_sexp(o) for o in spec["ops"]))
+        pt_sexp(spec["tree"]), " ".join(op_sexp(o, ob) for o, ob in zip(spec["ops"], obs)))
 
 
 def split_items(r):
@@ -1076,7 +1236,8 @@ def monitor_store_value(spec, op, ob, out, hist):
             pos = i if i >= 0 else len(y0) + i
             # conditions built by as_penalty / and_ / or_ are recomputed here with fsum / sqrt: equal up to rounding only
             approx = ob["approx"][gi]
-            if pos < 0 or pos >= len(y1) or not (near(y1[pos], want, 0.0) if approx else same_float(y1[pos], want)):
+            # (a nan condition value - x itself holds a nan - is recorded as nan: near() knows no nan, same_float does)
+            if pos < 0 or pos >= len(y1) or not ((near(y1[pos], want, 0.0) or same_float(y1[pos], want)) if approx else same_float(y1[pos], want)):
                 out.append(("store/value", "store(x, %r) at level #%d: stored()=%r, expected %r at index %d" % (i, gi, y1, want, pos)))
             else:
                 rest_ok = len(y1) == max(len(y0), pos + 1) and all(
@@ -1090,7 +1251,7 @@ def monitor_clear_fresh(spec, k_op, out, hist):
     """`clear()` on the outermost handle resets to the state of a freshly built penalty and touches nothing else:
     every later evaluation agrees with a fresh copy driven by the remaining ops"""
     ops = spec["ops"]
-    rest = [o for o in ops[k_op + 1:]]
+    rest = [o for o in ops[k_op + 1:] if o[0] not in READER_OPS]     # the caller's lists are not part of the penalty
     if not rest:
         return
     s1 = dict(spec); s1["ops"] = ops[:k_op + 1] + rest
@@ -1158,12 +1319,65 @@ def monitor_cycles(spec, obs, out, hist):
                 return
 
 
+def type_name(tok):
+    return [nm for nm, tk in TYPES if tk == tok][0]
+
+
+def monitor_reader(spec, op, ob, out, hist):
+    """the caller edited a list it got from stored(): the penalty - the (iteration, history) of EVERY level of the tree
+    and the value at a probe point - is exactly what it was before the edit"""
+    if ob.get("skip"):
+        return
+    hist["mon:reader-edit"] = hist.get("mon:reader-edit", 0) + 1
+    hist["mon:reader-edit:" + op[3][0]] = hist.get("mon:reader-edit:" + op[3][0], 0) + 1
+    stok = ob["src"][1]
+    hist["mon:reader-edit:src-" + ("lagrange" if stok in LAG else "other")] = hist.get("mon:reader-edit:src-" + ("lagrange" if stok in LAG else "other"), 0) + 1
+    for idx, ((n0, y0), (n1, y1)) in enumerate(zip(ob["before"], ob["state"])):
+        if n0 != n1 or not same_vec(y0, y1):
+            out.append(("%s/stored/callers-edit-changes-history" % type_name(ob["types"][idx]),
+                        "the caller did %r to the list it had received from stored() of a %s level (its list number %d): level #%d of the tree went %r -> %r"
+                        % (tuple(op[3]), type_name(stok), op[2], idx, (n0, y0), (n1, y1))))
+            break
+    pv0, pv1 = ob["pv"]
+    if not (pv0[0] == "raise" and pv0[1] == "overflow") and not same_result(pv0, pv1):
+        out.append(("%s/stored/value-depends-on-callers-list" % type_name(spec["tree"]["levels"][0]["t"]),
+                    "p(x) at x=%r was %r; after the caller did %r to the list it had received from stored() of a %s level it is %r"
+                    % (list(op[4]), pv0, tuple(op[3]), type_name(stok), pv1)))
+
+
 def monitor(spec, obs, hist):
     out = []
     cleared = False
     member_mut = False
+    held_bad = False
+    prev_exp = []
     for k_op, (op, ob) in enumerate(zip(spec["ops"], obs)):
         kind = op[0]
+        # (a) what the caller holds changes only by the caller's own hand: no call on the penalty (clear, store, iter,
+        #     an evaluation) and no edit of ANOTHER list may change a list obtained from stored()
+        if "held" in ob and not held_bad:
+            hist["mon:held-lists-checked"] = hist.get("mon:held-lists-checked", 0) + len(ob["held"])
+            if kind in ("clear", "store", "storeI", "iter", "iterI"):
+                hist["mon:held-across:" + kind] = hist.get("mon:held-across:" + kind, 0) + 1
+            for q, (hv, ev) in enumerate(zip(ob["held"], ob["exp"])):
+                if not same_vec(hv, ev):
+                    held_bad = True
+                    what = "%s()" % kind if kind not in READER_OPS else {"hold": "a second stored()", "hmut": "an edit of list number %d" % op[2], "held": "nothing"}[kind]
+                    key = ("%s/touches-callers-list" % kind) if kind not in READER_OPS else "stored/readings-share-one-list"
+                    out.append((key, "list number %d, obtained from stored() and left by the caller as %r, reads %r after %s on %r"
+                                % (q, ev, hv, what, op[1])))
+                    break
+        if ob.get("aliased"):
+            out.append(("stored/readings-share-one-list", "stored() returned the very list object of an earlier reading"))
+        if "xmut" in ob:
+            out.append(("%s/mutates-argument" % kind, "%s(x) changed the caller's x from %r to %r" % (kind, list(op[2]), ob["xmut"])))
+        # (b) a type without multipliers never has a history
+        if "state" in ob and "types" in ob and not (ob["r"][0] == "raise"):
+            for idx, (n1, y1) in enumerate(ob["state"]):
+                if ob["types"][idx] not in LAG and y1:
+                    out.append(("%s/has-history" % type_name(ob["types"][idx]), "after %s level #%d of type %s has stored()=%r (only the Lagrange types keep multipliers)"
+                                % (kind, idx, type_name(ob["types"][idx]), y1)))
+                    break
         if ob["r"][0] == "raise" and ob["r"][1] == "overflow":
             continue
         if ob["r"][0] == "raise" and str(ob["r"][1]).startswith("other:"):
@@ -1186,6 +1400,8 @@ def monitor(spec, obs, hist):
             r, p = ob["r"], ob["p"]
             if r[0] == "v" and p[0] == "v" and not same_float(r[1], ob["g"] + p[1]):
                 out.append(("coupler/additive", "additive(p)(f)(x)=%r but f(x)+p(x)=%r" % (r[1], ob["g"] + p[1])))
+        elif kind == "hmut":
+            monitor_reader(spec, op, ob, out, hist)
     if spec["kind"] == "lagcycle":
         monitor_cycles(spec, obs, out, hist)
     return out
@@ -1211,7 +1427,7 @@ def run_case(spec, hist):
         import numpy as np
         with np.errstate(all="ignore"):
             root, obs = run_impl(spec)
-            line = request_line(spec)
+            line = request_line(spec, obs)
             mon = monitor(spec, obs, hist)
     return line, obs, mon
 
@@ -1284,7 +1500,7 @@ def compare(spec, obs, rep, hist):
                 # a last-bit difference in a sum / log may select the other branch of a uniform type / logical not
                 hist["skipped:rounding-before-branch"] = hist.get("skipped:rounding-before-branch", 0) + 1
                 continue
-            scale = max([abs(d[1]) for d in ob.get("deeper", []) if d[0] == "v" and math.isfinite(d[1])] + [0.0])
+            scale = max([abs(d[1]) for d in ob.get("deeper", []) if d[0] == "v" and math.isfinite(d[1])] + [0.0, ob.get("sumscale", 0.0)])
             if exact:
                 # expected bit-identical (and is, on the pinned tree).  A difference below 1e-9 relative is what a
                 # behaviour-preserving rewrite of the arithmetic (x**2 -> x*x, x**0.5 -> sqrt, h**n by repeated
@@ -1306,11 +1522,15 @@ def compare(spec, obs, rep, hist):
             ms = model_state(it)
             if not same_state(ob, ms, ob["state"]):
                 diffs.append("%s: state model=%r impl=%r" % (tag, ms, ob["state"]))
-        elif kind == "stored":
+        elif kind == "hmut":
+            ms = model_state(it)
+            if not same_state(ob, ms, ob["state"]):
+                diffs.append("%s: state after the caller's edit model=%r impl=%r" % (tag, ms, ob["state"]))
+        elif kind in ("stored", "hold", "held"):
             mys = [b2f(t) for t in it[1]]
             if not (same_vec(mys, ir[1]) or (ob["approx"] and len(mys) == len(ir[1])
                                              and all(close(p, q, 0.0) for p, q in zip(mys, ir[1])))):
-                diffs.append("%s: stored() model=%r impl=%r" % (tag, [b2f(t) for t in it[1]], ir[1]))
+                diffs.append("%s: %s model=%r impl=%r" % (tag, {"stored": "stored()", "hold": "stored() kept", "held": "the caller's list"}[kind], [b2f(t) for t in it[1]], ir[1]))
         elif kind == "iteration":
             if int(it[1]) != ir[1]:
                 diffs.append("%s: iteration() model=%s impl=%r" % (tag, it[1], ir[1]))
@@ -1391,13 +1611,21 @@ def run_shard(pid, seed, shard, ncases, tier, extra):
         cases.append((spec, obs, mon, ident)); lines.append(line)
     replies = run_driver(lines)
     nontrivial = 0; samples = []
+    per_class = {}
+
+    def found(kind, key, what, case, ident):
+        """the full case travels with the first findings of a class only (the parent process keeps every finding of
+        every shard in memory: ~40% of the cases hit a known-finding class); later ones carry their identity, from
+        which `replay` regenerates them"""
+        c = per_class.get((kind, key), 0); per_class[(kind, key)] = c + 1
+        findings.append(Finding(kind, key, what, case if c < 3 else {"ident": ident}))
     for (spec, obs, mon, ident), line, rep in zip(cases, lines, replies):
         case = jcase(spec, line, obs, rep, ident)
         diffs = compare(spec, obs, rep, hist)
         if diffs:
-            findings.append(Finding("correspondence", "penalty/%s/diverges" % spec["kind"], "; ".join(diffs[:3]), case))
+            found("correspondence", "penalty/%s/diverges" % spec["kind"], "; ".join(diffs[:3]), case, ident)
         for key, what in mon:
-            findings.append(Finding("monitor", key, what, case))
+            found("monitor", key, what, case, ident)
         nt = case_hist(spec, obs, hist)
         if nt:
             nontrivial += 1
@@ -1463,7 +1691,10 @@ def main(tier, seed):
             "are again such objects (nesting to depth 3, not_ of and_/or_/not_), driven by 5-16 operations p(x), error(x), iter(), iter(i) "
             "(i<0, i up to 1100), store(x[,i]) (negative and out-of-range i), stored([i]), clear(), iteration(), additive on ANY object of the "
             "tree (outer level, decorated level, live member penalty of a combination); kind lagcycle = the store/iter outer loop of the "
-            "augmented Lagrangian for 2-7 cycles. non-trivial = some evaluation follows a state change (iter/store/clear) and some evaluation "
+            "augmented Lagrangian for 2-7 cycles; in ~45% of the cases the CALLER keeps what stored() / stored(slice) of any object returned "
+            "(hold), edits those lists in place (hmut: sort, reverse, scale, negate, append, extend, insert, pop, del, set, clear; the whole "
+            "tree state and a probe evaluation are taken before and after) and reads them back later, across store / iter / clear (held); "
+            "the argument list of every p(x) / error(x) / store(x) is checked to come back unchanged. non-trivial = some evaluation follows a state change (iter/store/clear) and some evaluation "
             "added a non-zero amount. `evaluations` counts cases, `model_lines_compared` operations")
     tb = ["Lean 4.33 kernel; Mathlib ordered-field lemmas; axioms per theorem listed under coverage.theorems",
           "hand-written models Model/Penalty.lean + Model/PenaltyTree.lean tied to mystic/penalty.py, coupler.py, constraints.with_penalty/as_penalty by this differential run only",
